@@ -362,6 +362,9 @@ func init() {
 		if f[4] != "outside=intact" {
 			return "FAIL a file outside the two directories was touched: " + res
 		}
+		if strings.HasPrefix(f[3], "handle=elsewhere") {
+			return "FAIL the handle points neither at the control file nor into the destination: " + res
+		}
 		n, _ := strconv.Atoi(a[6])
 		if op != "remove" {
 			if !ok && ctlInDst && a[4] == "A" {
